@@ -784,15 +784,8 @@ def check_angle(ctx, db):
     outer = next((a for a in aa[0].ancestors() if a.k == 'IfStmt' and a.child('else') is not None and any(x is aa[1] for x in a.walk())), None)
     if outer is None:
         raise AnalysisBroken('write_oas: angle code branches not under one test')
-    sw = [s for s in r.walk() if s.k == 'SwitchStmt' and O.info_mask(s.child('cond')) == 0x06]
-    table = {0: 0}
-    for s in sw[:1]:
-        for labels, stmts, top in tables.switch_arms(s):
-            a = next((x.child('rhs') for st in stmts for x in st.walk() if is_assign(x) and norm(x.child('lhs').text()).endswith('->rotation')), None)
-            if a is not None:
-                q = a.fv / 1.5707963267948966 if a.fv is not None else None
-                for l in labels:
-                    table[l] = q
+    from . import C04 as _C04
+    table = _C04.reader_angle_table(db)
     bad = []
     for m in range(-9, 10):
         env = {'m': m}
